@@ -212,7 +212,8 @@ sock_t sock_connect(xmpp_sock_t *xsock)
     char buf[64];
 
     do {
-        if (!xsock->ainfo_cur) {
+        /* Skip targets that don't resolve to any address. */
+        while (!xsock->ainfo_cur && xsock->srv_rr_cur) {
             sock_getaddrinfo(xsock);
             if (xsock->srv_rr_cur)
                 xsock->srv_rr_cur = xsock->srv_rr_cur->next;
